@@ -97,6 +97,15 @@ def main():
                                                '/venv/bin/python demo.py <changed tree>  (exit 1)', '/venv/bin/python demo.py <unchanged tree>  (exit 0)']},
                     'checks_fired': caught, 'checks_undecided': undecided, 'first_run_verdict': verdict, 'verdict': verdict,
                     'note': 'demo.py takes the tree (a directory containing bronzebeard/) as its first argument'}
+            try:
+                old = json.load(open(os.path.join(d, 'meta.json')))
+                if old.get('delivered_for'):
+                    # relabelled by hand (the change breaks another property than the one it was delivered for): keep that
+                    meta['delivered_for'], meta['breaks_property'], meta['note'] = old['delivered_for'], old['breaks_property'], old.get('note', meta['note'])
+                if old.get('first_run_verdict'):
+                    meta['first_run_verdict'] = old['first_run_verdict']
+            except (OSError, ValueError):
+                pass
             with open(os.path.join(d, 'meta.json'), 'w') as f:
                 json.dump(meta, f, indent=1)
             print('kept in', d)
